@@ -42,6 +42,7 @@ type Options struct {
 	Stdin        string
 	ExitCodeFlag bool
 	NotSilent    bool
+	WaitLog      bool // verbose logging on; "skipping execution of task" lines become 'L' trace events (no scheduling point)
 	ListJSON     bool // instead of running tasks: e.ListTasks(list-all, json)
 	SchedSetup   bool // Setup's reader/merge goroutines are scheduler threads too (not run inline)
 	DumpOnly     bool // after Setup: record a canonical dump of what was loaded instead of running tasks
@@ -115,6 +116,40 @@ func (p *Probe) Write(b []byte) (int, error) {
 	return len(b), nil
 }
 
+// logProbe turns the executor's "skipping execution of task" log lines (a caller found a
+// deduplicated execution registered and is about to wait for it) into 'L' trace events. It
+// adds no scheduling point.
+type logProbe struct{ p *Probe }
+
+func (l *logProbe) Write(b []byte) (int, error) {
+	s := strings.TrimSpace(string(b))
+	if !strings.Contains(s, "skipping execution of task") || vsched.Aborting() {
+		return len(b), nil
+	}
+	// "<taskfile path>:<local name>" (run: once) or "<task>:<hash>" (when_changed): keep what
+	// follows the directory part, the project directory differs between runs
+	s = strings.TrimSuffix(s, "\x1b[0m")
+	if i := strings.LastIndex(s, "/"); i >= 0 {
+		s = s[i+1:]
+	} else if i := strings.LastIndex(s, "task: "); i >= 0 {
+		s = s[i+6:]
+	}
+	s = "waits-for-shared-execution " + s
+	tid := 0
+	if t := vsched.Cur(); t != nil {
+		tid = t.ID
+	}
+	if !vsched.Active() {
+		l.p.mu.Lock()
+		defer l.p.mu.Unlock()
+	}
+	l.p.Trace = append(l.p.Trace, Event{'L', s, tid})
+	if vsched.Active() {
+		vsched.ObserveStdout(hash64("L" + s))
+	}
+	return len(b), nil
+}
+
 // RawWriter records every underlying write as one event and yields around it (C17).
 type RawWriter struct {
 	mu     sync.Mutex
@@ -175,10 +210,15 @@ func (sc *Scenario) Body(dir string, x *Exec, probe *Probe, raw *RawWriter) func
 		if sc.Raw {
 			out = raw
 		}
+		var errw io.Writer = io.Discard
+		if sc.Opts.WaitLog {
+			errw = &logProbe{p: probe}
+		}
 		opts := []task.ExecutorOption{
 			task.WithDir(dir),
 			task.WithStdout(out),
-			task.WithStderr(io.Discard),
+			task.WithStderr(errw),
+			task.WithVerbose(sc.Opts.WaitLog),
 			task.WithSilent(!sc.Opts.NotSilent),
 			task.WithConcurrency(sc.Opts.Concurrency),
 			task.WithParallel(sc.Opts.Parallel),
